@@ -194,6 +194,15 @@ def run(tier, seed):
         for kw in ({"hop": 3.0 / 256, "kind": "nearest"}, {"hop": 3.0 / 256, "kind": "zero"}, {"hop": 1.0 / 128, "kind": "linear"},
                    {"hop": 5.0 / 256, "kind": rng.choice(["nearest", "zero", "slinear"])}):
             perfect("melody.evaluate", mel.evaluate, (t, f2), kw, {"freq": f2.tolist()})
+        # a soft reference reward (Bittner & Bosch) with a hop finer than the annotation's grid: the copy still has the
+        # best raw pitch / chroma accuracy.  Input class (for the recorded finding): the reward is interpolated across a
+        # transition from a pitchless frame to a pitched one (MC_C04_melk: QuirkClass - found by TLC)
+        rw = np.array([0.0 if x == 0 else rng.choice([0.25, 0.5, 0.75, 1.0]) for x in f2])
+        quirk = bool(len(set(rw[rw > 0].tolist()) | {1.0}) > 1 and any(f2[i] == 0 and f2[i + 1] != 0 for i in range(len(f2) - 1)))
+        r = call(mel.evaluate, t, f2, t.copy(), f2.copy(), ref_reward=rw, hop=1.0 / 128)
+        log.add("perfect2", "melody.evaluate[soft reward]", r, r,
+                {"freq": f2.tolist(), "ref_reward": rw.tolist(), "hop": 1.0 / 128, "mode": "copy", "kw": "{'hop': 1/128, 'ref_reward': ...}",
+                 "class": "soft-reward-interpolated-across-a-pitchless-to-pitched-transition" if quirk else "general"})
         mt, mf = nd_multipitch(rng)
         perfect("multipitch.metrics", mp.metrics, (mt, mf), {"window": rng.choice([0.5, 0.01])}, {"freqs": [q.tolist() for q in mf]})
         perfect("multipitch.evaluate", mp.evaluate, (mt, mf), meta={"freqs": [q.tolist() for q in mf]})
@@ -234,7 +243,9 @@ def run(tier, seed):
     ev.tlc("Trace_Rel", st, "PerfectSpec verdicts on recorded outcomes")
     ev.cov["traces_validated_against_impl"] = len(log.events)
     for fn, rel, clause, meta, a, b in bad:
-        rep.violation(fn, "perfect/" + clause.split("/")[0], {"failing": clause, "input": meta, "outcome": a})
+        cls = meta.get("class", "general")
+        tag = "perfect/" + clause.split("/")[0] if cls == "general" else cls + "/perfect:" + clause.split("@")[0]
+        rep.violation(fn.split("[")[0], tag, {"failing": clause, "input": meta, "outcome": a})
     for e in log.events:
         ev.case((e["fn"], str(log.meta[e["tid"]][2])[:400]), nontrivial=e["aexc"] == "ok")
     ev.sample({"fn": log.events[0]["fn"], "input": log.meta[1][2], "outcome": log.meta[1][3][1]})
